@@ -333,7 +333,7 @@ def make_contracts(L):
         return [
             define("backward_to_latent", bwd.to_latent, 1.0 / self.to_observed),
             define("backward_to_observed", bwd.to_observed, 1.0 / self.to_latent),
-            eq("observed_mean", observed.mean_flat, m_obs),
+            define("observed_mean", observed.mean_flat, m_obs),
             eq("observed_cov", cov(L, observed), S),
             eq("gain_equation", L.mm(G, S), L.mm(P, L.T(A))),
             eq("backward_offset", xi, m - L.mv(G, m_obs)),
